@@ -105,19 +105,40 @@ def single_site(ctx):
 
 def expect_writers(ctx):
     facts = ctx.facts
-    fn, lv = leaves(ctx, conn.PHL)
+    fn, lv = leaves(ctx, conn.PHL, lower=True)
     n = 0
+
+    def eq_continue(t):
+        """+1 / -1 if t is `trim(value) == "100-continue"` / `!=`"""
+        if is_call(t, "eq", "ne") and len(t[2]) == 2 and "100-continue" in (const_of(t[2][0]), const_of(t[2][1])):
+            if "trim" in [last_seg(s_[1]) for s_ in subterms(t) if isinstance(s_, tuple) and s_ and s_[0] == "call"]:
+                return 1 if last_seg(t[1]) == "eq" else -1
+        return 0
+
+    sites = set()
     for lf in lv:
         for e in lf.events:
             if e[0] == "assign" and e[3] == "(*_1).expect":
-                n += 1
-                asked = any(is_call(t, "eq") and const_of(t[2][1]) == "100-continue" and truth(c) and "trim" in [last_seg(s[1]) for s in subterms(t) if isinstance(s, tuple) and s and s[0] == "call"] for (t, c, _b) in lf.conds)
+                sites.add(e[1])
+                asked = False
+                for (t, c, _b) in lf.conds:
+                    neg = False
+                    x = t
+                    while x[0] == "un" and x[1] == "Not":
+                        x, neg = look(x[2]), not neg
+                    k = eq_continue(x)
+                    if k and truth(c) is not None and (truth(c) != neg) == (k == 1):
+                        asked = True
                 from .c15 import classify_arm
                 arm = classify_arm(facts, lf)
-                ctx.ob("R13.4", "expect-set", e[4] == ("const", True) and asked and arm == "Expect", "Headers.expect = true only under the Expect arm with trim(value) == '100-continue' (arm %s)" % arm, fn.loc(e[1]))
-    ctx.ob("R13.4", "expect-set|floor", n == 1, "%d assignment(s) to Headers.expect in parse_header_line" % n, fn.loc(0))
+                v = e[4]
+                ok_val = (v == ("const", True) and asked) or (v[0] == "bin" and v[1] == "BitOr" and any(eq_continue(look(x)) == 1 for x in v[2:4]) and any(look(x)[0] == "field" and look(x)[3] == "expect" for x in v[2:4]))
+                ctx.ob("R13.4", "expect-set", ok_val and arm == "Expect", "Headers.expect is turned on only under the Expect arm with trim(value) == '100-continue' (arm %s)" % arm, fn.loc(e[1]))
+    n = len(sites)
+    ctx.ob("R13.4", "expect-set|floor", n == 1, "%d assignment site(s) of Headers.expect in parse_header_line" % n, fn.loc(0))
     from .fields import field_writers
+    from .util import writer_roots
     for w in field_writers(facts, "common::headers::Headers", "expect"):
-        ctx.ob("R13.4", "writers|%s" % w[0], w[0] in (conn.PHL, "<common::headers::Headers as std::default::Default>::default"), "writer of Headers.expect: %s (%s)" % (w[0], w[3]), w[2])
+        ctx.ob("R13.4", "writers|%s" % w[0], writer_roots(facts, w[0]) <= {conn.PHL, "<common::headers::Headers as std::default::Default>::default"}, "writer of Headers.expect: %s (%s)" % (w[0], w[3]), w[2])
     conn.accessor_is(ctx, "R13.4", "common::headers::Headers::expect", ["expect"])
     conn.accessor_is(ctx, "R13.4", "common::headers::Headers::content_length", ["content_length"])
